@@ -305,6 +305,24 @@ func c04Pure(rep *Report, w *World, fc *actionctrl.FeeController, bank *recBank,
 		rep.Violate(Violation{Kind: "panic", Group: group, Sig: sig, Replay: replayFn(), What: fmt.Sprintf("fee action panicked instead of refusing (%v): %s", pan, sig)})
 		return
 	}
+	if ref.Ambiguous && (ref.Refuse == "" || ref.Refuse == "sum not strictly below amount" || ref.Refuse == "arithmetic overflow") {
+		// a spelling the property does not classify: only internal consistency is demanded
+		paid := new(big.Int)
+		for _, sd := range bank.sends {
+			if cs, err := sdk.ParseCoinsNormalized(sd[strings.LastIndex(sd, ":")+1:]); err == nil && len(cs) == 1 {
+				paid.Add(paid, cs[0].Amount.BigInt())
+			}
+		}
+		left := ta.DestinationAmount().BigInt()
+		if herr != nil && (len(bank.sends) != 0 || left.Cmp(A) != 0) {
+			rep.Violate(Violation{Kind: "refused-but-paid", Group: group, Sig: sig, Replay: replayFn(), What: fmt.Sprintf("refused fee action still paid %v: %s", bank.sends, sig)})
+		} else if herr == nil && (new(big.Int).Add(left, paid).Cmp(A) != 0 || left.Sign() <= 0) {
+			rep.Violate(Violation{Kind: "forwarded-amount-not-exact", Group: group, Sig: sig, Replay: replayFn(), What: fmt.Sprintf("paid %s, left %s, incoming %s: %s", paid, left, A, sig)})
+		} else {
+			rep.Outcome("pure-ambiguous-spelling-consistent")
+		}
+		return
+	}
 	if ref.Refuse != "" {
 		if herr == nil {
 			rep.Violate(Violation{Kind: "not-refused", Group: group, Sig: sig, Replay: replayFn(), What: fmt.Sprintf("fee action must be refused (%s) but was executed: %s sends=%v", ref.Refuse, sig, bank.sends)})
@@ -396,6 +414,10 @@ func c04Stack(rep *Report, w *World, A *big.Int, base string, list []feeShape) {
 	r := w.Recv(ctx, pkt)
 	if r.Panic != "" {
 		rep.Violate(Violation{Kind: "panic", Group: group, Sig: sig, Replay: replay, What: "receive path panicked instead of refusing: " + r.Panic + " " + sig})
+		return
+	}
+	if ref.Ambiguous && (ref.Refuse == "" || ref.Refuse == "sum not strictly below amount" || ref.Refuse == "arithmetic overflow") {
+		rep.Outcome("stack-ambiguous-spelling(no panic)")
 		return
 	}
 	if ref.Refuse != "" {
